@@ -22,6 +22,14 @@ PICK = {
 }
 def jobs(tier):
     J = []
+    TC = ["40 s / 10 s vs 30 s", "40 s / 35 s vs 30 s", "5 s / 2 s vs 30 s", "30.000 s / 29.999 s vs 30 s", "30.001 s / 30.000 s vs 30 s", "1 ms / 0 ms vs 1 ms"]
+    for k, t in enumerate(TC):
+        J.append(Job(name=f"expire_incomplete.T{k}", group="C10.expire", harness="harness/C09_pending.c", defines={"P": 0, "OP": 8, "TCASE": k}, real=["dbus/dbus-list.c"],
+                     env=["assert_stubs.c", "mem.c", "pool_lock.c", "msg_model.c", "msg_build.c"], checks="assert", unwind=7, unwindset=["strcmp.0:48"], timeout=300,
+                     encodes=["bus_connections_expire_incomplete", "bus_expire_timeout_set_interval"], stubs=["clock, auth_timeout = the job's concrete values", "dbus_connection_close = ghost mask", "authentication state = symbolic"],
+                     assumes=["incomplete list is oldest-first (bus_connections_setup_connection appends)"],
+                     bounds=f"two incomplete connections aged {t} auth_timeout (concrete: double arithmetic is not decided symbolically here); authentication state and timer state symbolic",
+                     shape=f"expire incomplete, ages {t}"))
     for pid, pick in PICK.items():
         for j in _other(pid).jobs(tier):
             if tier in j.tiers and pick(j.name, tier):
